@@ -19,6 +19,13 @@ def graph_case(draw):
         cands = [j for j in range(i) if depth[j] < 3]
         deps = draw(st.lists(st.sampled_from(cands), max_size=3, unique=True)) if cands else []
         depth[i] = 1 + max([depth[j] for j in deps] + [0])
+        if i > 0 and draw(st.integers(0, 5)) == 0:
+            # a second Depends object over the *same* provider function as an earlier node: used, and overridable, on its own
+            j = draw(st.integers(0, i - 1))
+            j = nodes[j].get("alias_of", j) if nodes[j].get("alias_of") is not None else j
+            depth[i] = depth[j]
+            nodes.append({**nodes[j], "id": i, "alias_of": j})
+            continue
         nodes.append({"id": i, "async": draw(st.booleans()), "deps": deps, "msg": draw(st.integers(0, 2)) == 0, "tag": f"n{i}",
                       "fails": False, "msg_pos": draw(st.integers(0, 3)), "dflt": draw(st.booleans()),
                       "suspend": draw(st.booleans())})
@@ -63,12 +70,20 @@ def build(case: dict, rec: list, calls: list):
     ns: dict = {"Annotated": Annotated, "MessageDependency": MessageDependency, "DEP": DEP, "CALLS": calls, "REC": rec,
                 "SLEEP": asyncio.sleep}
     cur = {}  # node id -> current provider spec
+    def root(i):
+        return case["nodes"][i].get("alias_of", i) if case["nodes"][i].get("alias_of") is not None else i
+
+    fail_root = None if case["fail_node"] is None else root(case["fail_node"])
     for nd in case["nodes"]:
-        src = provider_source(f"prov{nd['id']}", nd["tag"], nd["async"], nd["deps"], nd["msg"], case["fail_node"] == nd["id"],
+        if nd.get("alias_of") is not None:
+            DEP[nd["id"]] = Depends(ns[f"prov{nd['alias_of']}"])  # same function, another Depends instance
+            cur[nd["id"]] = dict(cur[nd["alias_of"]])
+            continue
+        src = provider_source(f"prov{nd['id']}", nd["tag"], nd["async"], nd["deps"], nd["msg"], fail_root == nd["id"],
                               nd.get("msg_pos", 99), nd.get("dflt", False), nd.get("suspend", False))
         exec(compile(src, "<provider>", "exec"), ns)  # noqa: S102
         DEP[nd["id"]] = Depends(ns[f"prov{nd['id']}"])
-        cur[nd["id"]] = dict(nd, fails=case["fail_node"] == nd["id"])
+        cur[nd["id"]] = dict(nd, fails=fail_root == nd["id"])
     params = [f"p{j}: Annotated[str, DEP[{j}]]" for j in case["actor_deps"]]
     if case["actor_msg"]:
         params.insert(min(case.get("actor_msg_pos", 99), len(params)), "m: MessageDependency")
